@@ -187,6 +187,27 @@ def gen_reads():
                 if an["slot"] is None:
                     continue
                 reads.add((c, (cls_of[an["slot"][0]], an["slot"][1])))
+    # … and on the system that contains every public class (services, builder jobs, cloud server)
+    try:
+        from harness import richsys
+
+        class _RS:
+            pass
+        rs = _RS()
+        rs.objs = richsys.build()
+        nodes = graphx.export(rs)
+        cls_of = {n: type(o).__name__ for n, o in rs.objs.items()}
+        for nd in nodes:
+            if not (nd["live"] and nd["calc"]):
+                continue
+            c = (cls_of[nd["slot"][0]], nd["slot"][1])
+            for a in nd["anc"]:
+                an = nodes[a]
+                if an["slot"] is None:
+                    continue
+                reads.add((c, (cls_of[an["slot"][0]], an["slot"][1])))
+    except Exception as e:  # noqa
+        reads.add((("<builder reference system failed>", type(e).__name__), ("", "")))
     rows = [f"(({lean_str(c)}, {lean_str(a)}), ({lean_str(d)}, {lean_str(b)}))" for (c, a), (d, b) in sorted(reads)]
     return ("/- GENERATED from /repo by harness/extract_schema.py — do not edit. -/\n"
             "namespace Efp.Generated\n\n"
